@@ -147,6 +147,20 @@ def gen_src(rng, seq, nmin=2, nmax=9, big_ok=True, dev_ok=True):
     return ents
 
 
+def _dangling_target(rng, rp, n):
+    """Target of a symlink that resolves to nothing: relative/absolute x inside/outside the live root."""
+    k = rng.randrange(5)
+    if k == 0:
+        return "gone-%d" % n                                   # relative, next to the link
+    if k == 1:
+        return "no such dir/x-%d" % n                          # relative, missing directory
+    if k == 2:
+        return "@W@/root/absent-%d" % n                        # absolute, inside the root
+    if k == 3:
+        return "@W@/outside/missing-%d" % n                    # absolute, outside the root
+    return _rel(os.path.dirname(rp), "outside/missing-%d" % n)  # relative, outside the root
+
+
 def _alias_candidates(srcdirs, p, dirlike):
     return [d for d in srcdirs if d != p and not d.startswith(p + "/") and not p.startswith(d + "/") and d in dirlike]
 
@@ -243,12 +257,14 @@ def gen_pre(rng, seq, src, p_pre=0.5, residue=False, alias=False, clash_ok=True,
                 peer["hl"] = "pre%d" % seq()
                 pre.append(dict(peer, p=rp))
                 tags.add("pre:file-hardlinked-with-unrelated")
-            elif r < 0.75:
+            elif r < 0.73:
                 pre.append(dict(_meta(rng, "link"), p=rp, t="link",
                                 target=rng.choice(["@W@/outside/ofile", _rel(os.path.dirname(rp), "outside/ofile")])))
                 tags.add("pre:symlink-where-file")
-            elif r < 0.81:
-                pre.append(dict(_meta(rng, "link"), p=rp, t="link", target="dangling"))
+            elif r < 0.83:
+                nout[0] += 1
+                pre.append(dict(_meta(rng, "link"), p=rp, t="link", target=_dangling_target(rng, rp, nout[0])))
+                tags.add("pre:dangling-symlink")
                 tags.add("pre:dangling-where-file")
             elif r < 0.86:
                 pre.append(dict(_meta(rng, "link"), p=rp, t="link", target="@W@/outside/odir"))
@@ -265,9 +281,14 @@ def gen_pre(rng, seq, src, p_pre=0.5, residue=False, alias=False, clash_ok=True,
             if r < 0.15:
                 pre.append(dict(_meta(rng, "link"), p=rp, t="link", target=e["target"]))
                 tags.add("pre:link-same")
-            elif r < 0.40:
+            elif r < 0.30:
                 pre.append(dict(_meta(rng, "link"), p=rp, t="link", target=rng.choice(["other", "@W@/outside/ofile", "@W@/outside/odir"])))
                 tags.add("pre:link-diff")
+            elif r < 0.40:
+                nout[0] += 1
+                pre.append(dict(_meta(rng, "link"), p=rp, t="link", target=_dangling_target(rng, rp, nout[0])))
+                tags.add("pre:dangling-symlink")
+                tags.add("pre:dangling-where-symlink")
             elif r < 0.72:
                 pre.append(dict(_meta(rng, "file"), p=rp, t="file", seed=seq(), size=_size(rng, False)))
                 tags.add("pre:file-where-symlink")
@@ -284,9 +305,14 @@ def gen_pre(rng, seq, src, p_pre=0.5, residue=False, alias=False, clash_ok=True,
             elif r < 0.8:
                 pre.append(dict(_meta(rng, "file"), p=rp, t="file", seed=seq(), size=_size(rng, False)))
                 tags.add("pre:file-where-fifo")
-            else:
+            elif r < 0.9:
                 pre.append(dict(_meta(rng, "link"), p=rp, t="link", target="@W@/outside/ofile"))
                 tags.add("pre:symlink-where-fifo")
+            else:
+                nout[0] += 1
+                pre.append(dict(_meta(rng, "link"), p=rp, t="link", target=_dangling_target(rng, rp, nout[0])))
+                tags.add("pre:dangling-symlink")
+                tags.add("pre:dangling-where-fifo")
         if residue and e["t"] != "dir" and rng.random() < 0.5 and pre[-1]["p"] == rp and pre[-1]["t"] != "dir":
             k = rng.random()
             np_ = rp + "#new"
